@@ -576,3 +576,16 @@ def guards_of(P, node: ast.AST) -> List[Tuple[str, bool]]:
         child, cur = cur, P.parent(cur)
     from .sym import _norm_conds
     return [(norm(c), pol) for c, pol in _norm_conds(out)]
+
+
+def doc_order(root: ast.AST) -> Dict[int, int]:
+    """id(node) -> position in a depth-first, source-order walk of ``root`` (line numbers are not reliable in a normalised
+    tree, where inlined statements carry the line of the call they replace)."""
+    out: Dict[int, int] = {}
+
+    def go(n):
+        out[id(n)] = len(out)
+        for c in ast.iter_child_nodes(n):
+            go(c)
+    go(root)
+    return out
